@@ -83,4 +83,100 @@ def validUtf8 : Bytes → Bool
       | _ => false
     else false
 
+/-! ## A polynomial matcher, and the proof that it is the matcher
+
+`globMatch` backtracks: on `*a*a…*a*b` against `aaaa…a` it takes exponentially many steps.  Go's `regexp` is linear, so the
+implementation answers such a request at once - and must (a KEYS that never returns holds the dispatch lock: C07).  For the
+model to have an answer too, the driver needs a matcher that is polynomial.  `globMatchFast` simulates the pattern on the
+set of key suffixes that remain to be matched; `globMatchFast_eq` proves it equal to `globMatch` for every pattern and key,
+and the `@[csimp]` lemma makes compiled code (the model driver, the reference store's KEYS, SCAN MATCH) run it wherever the
+definitions say `globMatch`.  The theorems keep talking about `globMatch`. -/
+
+/-- all suffixes of a key (itself and the empty one included) -/
+def suffixes : Bytes → List Bytes
+  | [] => [[]]
+  | c :: cs => (c :: cs) :: suffixes cs
+
+/-- one pattern byte applied to the set of keys that remain to be matched -/
+def globAdvance (S : List Bytes) (p : UInt8) : List Bytes :=
+  if p == 42 then (S.flatMap suffixes).eraseDups
+  else S.filterMap fun k => match k with
+    | [] => none
+    | c :: cs => if p == 63 || p == c then some cs else none
+
+/-- the matcher as a position-set simulation: polynomial in pattern and key (the recursive `globMatch` backtracks) -/
+def globMatchFast (p k : Bytes) : Bool := (p.foldl globAdvance [k]).contains []
+
+theorem suffixes_any (ps k : Bytes) : (suffixes k).any (globMatch ps) = globMatch (42 :: ps) k := by
+  induction k with
+  | nil =>
+    simp only [suffixes, List.any_cons, List.any_nil, Bool.or_false]
+    conv => rhs; unfold globMatch
+    simp
+  | cons c cs ih =>
+    simp only [suffixes, List.any_cons, ih]
+    conv => rhs; unfold globMatch
+    simp
+
+theorem advance_any (S : List Bytes) (q : UInt8) (ps : Bytes) :
+    (globAdvance S q).any (globMatch ps) = S.any (globMatch (q :: ps)) := by
+  unfold globAdvance
+  by_cases hq : (q == 42) = true
+  · have : q = 42 := by simpa using hq
+    subst this
+    simp only [beq_self_eq_true, if_true]
+    rw [Bool.eq_iff_iff]
+    simp only [List.any_eq_true, List.mem_eraseDups, List.mem_flatMap]
+    constructor
+    · rintro ⟨x, ⟨k, hk, hx⟩, hm⟩
+      refine ⟨k, hk, ?_⟩
+      rw [← suffixes_any]
+      exact List.any_eq_true.mpr ⟨x, hx, hm⟩
+    · rintro ⟨k, hk, hm⟩
+      rw [← suffixes_any] at hm
+      obtain ⟨x, hx, hxm⟩ := List.any_eq_true.mp hm
+      exact ⟨x, ⟨k, hk, hx⟩, hxm⟩
+  · have hq' : (q == 42) = false := by simpa using hq
+    simp only [hq', Bool.false_eq_true, if_false]
+    induction S with
+    | nil => rfl
+    | cons k S ih =>
+      simp only [List.filterMap_cons, List.any_cons]
+      rw [← ih]
+      cases k with
+      | nil => simp; unfold globMatch; simp [hq']
+      | cons c cs =>
+        conv => rhs; unfold globMatch
+        simp only [hq', Bool.false_eq_true, if_false]
+        by_cases hc : (q == 63 || q == c) = true
+        · simp [hc]
+        · have : (q == 63 || q == c) = false := by simpa using hc
+          simp [this]
+
+theorem foldl_any (p : Bytes) (S : List Bytes) :
+    (p.foldl globAdvance S).contains [] = S.any (globMatch p) := by
+  induction p generalizing S with
+  | nil =>
+    simp only [List.foldl_nil]
+    induction S with
+    | nil => rfl
+    | cons k S ih =>
+      simp only [List.contains_cons, List.any_cons, ih]
+      cases k with
+      | nil => simp [globMatch]
+      | cons c cs => simp [globMatch]
+  | cons q ps ih =>
+    simp only [List.foldl_cons, ih, advance_any]
+
+/-- **The fast matcher is the matcher** -/
+theorem globMatchFast_eq (p k : Bytes) : globMatchFast p k = globMatch p k := by
+  unfold globMatchFast
+  rw [foldl_any]
+  simp
+
+
+@[csimp] theorem globMatch_eq_globMatchFast : @globMatch = @globMatchFast := by
+  funext p k
+  exact (globMatchFast_eq p k).symm
+
 end GoRedis
